@@ -87,8 +87,8 @@ PROPS = {
         explanation='the DocumentOrder layer: get/push/remove/insert_after/insert_before of info/src/lib.rs verified against a sequence-of-live-ids view with the data-structure invariant "no live id twice": the key of a node is 1 + its first index (0 when absent), so keys of present nodes are non-zero and pairwise distinct (lemma), push appends without moving any other key, remove deletes exactly one entry, insert_after/insert_before place the node directly next to the reference node, and a refused call changes nothing; on top of it (unit c13_tree) the callers choose the right neighbour: append numbers the whole inserted subtree after the LAST DESCENDANT of the parent, insert_before before the reference child, append_attribute after the last attribute and before the children, and last_child_or_self_id of elements and documents answers the last item of the subtree; the subtree layer (unit c14_subtree, over a concrete recursive item tree): sub_items lists namespace declarations, other attributes, children in that order, last_descendant_or_self_id answers the last id of the pre-order list, place_descendants puts every id below an item, contiguously and in pre-order, directly after it, and place_subtree_after/_before put the whole subtree next to the anchor -- by structural induction through the recursive call, with the sequence surgery proved as lemmas; the initial numbering (unit c14_init: init_order_recursive of elements, documents and attributes, induction by contract over the recursion) appends exactly the subtree in the order element, namespace declarations, attributes, children',
     ),
     'C19': dict(
-        standin_ops=['xpath.query.ctx_reuse', 'xpath.corpus_repeat'],
-        quick_grids=['xpath.corpus_repeat'],
+        standin_ops=['xpath.query.ctx_reuse', 'xpath.corpus_repeat', 'xpath.ctx_series'],
+        quick_grids=['xpath.corpus_repeat', 'xpath.ctx_series'],
         verus_units=['eval_ctx'],
         level='proof',
         trusted_base=TRUSTED_VERUS,
@@ -97,8 +97,8 @@ PROPS = {
         explanation='context-stack balance of the XPath evaluator: all 19 eval_* functions of xpath/src/eval/mod.rs and the six push/pop/get methods of model::Context are extracted and each is verified against the contracts of its callees: when a function returns, with Ok or with Err, the size and position stacks and the namespace bindings of the caller\'s context are exactly what they were on entry; so a query that fails inside a predicate cannot change the answer of a later query on the same context',
     ),
     'C07': dict(
-        standin_ops=['xpath.query.order', 'xpath.corpus_order'],
-        quick_grids=['xpath.corpus_order'],
+        standin_ops=['xpath.query.order', 'xpath.corpus_order', 'xpath.union_algebra'],
+        quick_grids=['xpath.corpus_order', 'xpath.union_algebra'],
         verus_units=['eval_ctx'],
         level='proof',
         trusted_base=TRUSTED_VERUS,
